@@ -280,8 +280,11 @@ func (mq *memtableQueue) add(vector []float32, text string, metadata map[string]
 		mq.rotateNoLock()
 	}
 
+	// The write happens under the queue lock: if it were released first, a
+	// concurrent rotation (and flush) could freeze the chosen memtable before
+	// the document is written, and the add would fail or be lost.
 	mutable := mq.mutable
-	mq.mu.Unlock()
+	defer mq.mu.Unlock()
 	verifPoint("memq:before_write", mutable)
 
 	return mutable.add(vector, text, metadata)
@@ -296,8 +299,9 @@ func (mq *memtableQueue) addWithID(id uint32, vector []float32, text string, met
 		mq.rotateNoLock()
 	}
 
+	// See add: the write happens under the queue lock.
 	mutable := mq.mutable
-	mq.mu.Unlock()
+	defer mq.mu.Unlock()
 	verifPoint("memq:before_write", mutable)
 
 	return mutable.addWithID(id, vector, text, metadata)
